@@ -65,10 +65,64 @@ class Tagger(flow.Actor):
             setattr(self, key, value)
 
 
+class Marker(flow.Actor):
+    """Stateless ``tag -> name(tag)``."""
+
+    def __init__(self, name: str):
+        self.name = name
+
+    def apply(self, rows):
+        return [[int(list(r)[0]), f'{self.name}({list(r)[1]})'] for r in rows]
+
+    def get_params(self):
+        return {'name': self.name}
+
+    def set_params(self, **params):
+        self.name = params.get('name', self.name)
+
+
+class Merger(Marker):
+    """Stateless 2:1 ``(a, b) -> name(a|b)`` pairing the rows of both branches by position."""
+
+    def apply(self, first, second):  # pylint: disable=arguments-differ
+        return [[int(list(a)[0]), f'{self.name}({list(a)[1]}|{list(b)[1]})'] for a, b in zip(first, second)]
+
+
+class Unequal(flow.Operator):
+    """``x -> merge(short(x), deep2(deep1(x)))`` in both modes: one node feeding two branches of unequal depth, the shallow
+    one being the merger's first argument (a serving runner evaluates that consumer before the producer of the other)."""
+
+    def __init__(self, name: str):
+        self._name = name
+
+    def compose(self, scope):
+        left = scope.expand()
+        name = self._name
+        tails = []
+        for publisher in (left.apply.publisher, left.train.publisher):
+            short = flow.Worker(Marker.builder(name=f'{name}s'), 1, 1)
+            deep1 = flow.Worker(Marker.builder(name=f'{name}a'), 1, 1)
+            deep2 = flow.Worker(Marker.builder(name=f'{name}b'), 1, 1)
+            merge = flow.Worker(Merger.builder(name=f'{name}m'), 2, 1)
+            head = flow.Future()
+            short[0].subscribe(head[0])
+            deep1[0].subscribe(head[0])
+            deep2[0].subscribe(deep1[0])
+            merge[0].subscribe(short[0])
+            merge[1].subscribe(deep2[0])
+            tails.append(flow.Segment(head, merge))
+        return left.extend(tails[0], tails[1])
+
+
 def expected_tag(actors: typing.Sequence[str], nonce: str, tag: str) -> str:
     """What a request with the given tag must come back as from a model trained with the given nonce."""
     trained = nonce  # the tag of the first training row as it travels down the train path
     for name in actors:
+        if name.startswith('fork:'):
+            n = name[5:]
+            trained = f'{n}m({n}s({trained})|{n}b({n}a({trained})))'
+            tag = f'{n}m({n}s({tag})|{n}b({n}a({tag})))'
+            continue
         state = f'{name}@{trained}'
         trained = f'{name}[{state}]({trained})'
         tag = f'{name}[{state}]({tag})'
@@ -111,7 +165,10 @@ from forml.pipeline import wrap
 from vlib import serving
 INSTANCE = None
 for _name in {actors!r}:
-    _op = wrap.Operator.mapper(serving.Tagger, name=_name, salt={salt!r}, scale_ms={scale!r})()
+    if _name.startswith('fork:'):
+        _op = serving.Unequal(_name[5:])
+    else:
+        _op = wrap.Operator.mapper(serving.Tagger, name=_name, salt={salt!r}, scale_ms={scale!r})()
     INSTANCE = _op if INSTANCE is None else INSTANCE >> _op
 project.setup(INSTANCE)
 '''
